@@ -157,6 +157,13 @@ func (s *Service) unblindProposal(ctx context.Context,
 		go func(ctx context.Context, provider builderclient.UnblindedProposalProvider, ch chan *api.VersionedSignedProposal) {
 			log := s.log.With().Str("provider", provider.Address()).Logger()
 			log.Trace().Msg("Unblinding block with provider")
+			// A relay's answer that the client cannot cope with must not take the process down:
+			// treat a panic while unblinding as this relay having failed.
+			defer func() {
+				if r := recover(); r != nil {
+					log.Error().Interface("panic", r).Msg("Panic whilst unblinding block; relay ignored")
+				}
+			}()
 
 			// As we cannot fall back we move to a retry system.
 			retryInterval := 250 * time.Millisecond
